@@ -1021,42 +1021,15 @@ func (ev *specEnv) callExpr(e *ast.CallExpr, n *specNode) Val {
 		return Sc{ev.st.pending, types.Universe.Lookup("error").Type()}
 	case "ncalls":
 		name := stringLit(e.Args[0])
-		c := 0
-		for _, l := range ev.st.log {
-			if l.Callee == name {
-				c++
-			}
+		t := x.ncallsTerm(ev.st, name)
+		if v, ok := litVal(t); ok {
+			return untypedInt(v)
 		}
-		return untypedInt(int64(c))
+		return Sc{t, types.Typ[types.Int]}
 	case "callarg":
-		name := stringLit(e.Args[0])
-		k := intLitArg(e.Args[1])
-		j := intLitArg(e.Args[2])
-		c := 0
-		for _, l := range ev.st.log {
-			if l.Callee == name {
-				c++
-				if c == k {
-					return l.Args[j]
-				}
-			}
-		}
-		// no such call on this path: the clause must be guarded by ncalls(); return an unconstrained value
-		return Sc{x.fresh("nocall", sIface), types.NewInterfaceType(nil, nil)}
+		return x.logLookup(ev.st, stringLit(e.Args[0]), ev.coerceInt(arg(1).(Sc)).T, intLitArg(e.Args[2]), false)
 	case "callres":
-		name := stringLit(e.Args[0])
-		k := intLitArg(e.Args[1])
-		j := intLitArg(e.Args[2])
-		c := 0
-		for _, l := range ev.st.log {
-			if l.Callee == name {
-				c++
-				if c == k {
-					return l.Res[j]
-				}
-			}
-		}
-		return Sc{x.fresh("nocall", sIface), types.NewInterfaceType(nil, nil)}
+		return x.logLookup(ev.st, stringLit(e.Args[0]), ev.coerceInt(arg(1).(Sc)).T, intLitArg(e.Args[2]), true)
 	case "float64":
 		return ev.callExprNamed("float", e, n)
 	}
